@@ -5,6 +5,7 @@ Property theorems about the selection model (Model/Select.lean), for ALL trees, 
 stated on source paths (`Sel.src`, project relative).
 -/
 import PoetryVerif.Proofs.Select
+import PoetryVerif.Proofs.SelectUnpack
 
 set_option linter.unusedSimpArgs false
 set_option linter.unusedVariables false
@@ -355,12 +356,11 @@ theorem wheel_from_sdist_counterexample_pkginfo : ¬ wheel_from_sdist_eq_full_st
   revert this
   decide +kernel
 
-/-- **Proved fragment (path-locality).** Extra hypothesis: the glob's base directory survives into the
-unpacked tree.  Then every glob the builders evaluate returns, on the unpacked sdist, exactly those of its
-results on the source tree that were packed (whether a path matches depends on the path and its kind only) —
-plus, possibly, the generated `PKG-INFO`.  The composition of this step through `find_excluded_files` and
-`find_files_to_add` to the equality of the two wheels is not proved; it is what the correspondence stream
-`members-wheel-from-sdist` and the byte-for-byte comparison of the two real wheels test. -/
+/-- **Path-locality step.** Extra hypothesis: the glob's base directory survives into the unpacked tree.  Then every
+glob the builders evaluate returns, on the unpacked sdist, exactly those of its results on the source tree that
+were packed (whether a path matches depends on the path and its kind only) — plus, possibly, the generated
+`PKG-INFO`.  `wheel_from_sdist_eq_of_hypotheses` below composes this step through `find_excluded_files` and
+`find_files_to_add`. -/
 theorem wheel_from_sdist_eq_partial {T : Tree} {S : List Sel} {txt : String} {base : Path} {pat : Pattern}
     (hbase : isDirIn (unpack T S txt) base = true) (e : Entry)
     (hne : e ≠ { path := [Gen.sdistPkgInfoName], isDir := false, content := txt }) :
@@ -376,5 +376,112 @@ theorem wheel_from_sdist_eq_partial {T : Tree} {S : List Sel} {txt : String} {ba
     exact ⟨hbase, hU, hm⟩
 
 example : isDirIn (unpack cx1Tree cx1S "") ["p"] = true := by decide +kernel
+
+/-- **The positive statement, with its hypotheses named.**  For a well-formed tree (`TreeWF`: one entry per path,
+files are leaves, path components contain no separator, nothing is called `PKG-INFO`):
+* `hsub` — the premise of the property: every source of the wheel is in the sdist;
+* `hRebuild` — *no package emptied*: selecting the wheel's files on the unpacked sdist does not raise;
+* `hPkgs` — the same package list applies (automatic when `packages` lists a wheel package; otherwise the default
+  package is detected alike);
+* `hVcs` — *no VCS-ignored path is packed*: nothing in the sdist is, or lies below, a path the VCS ignores
+  (rules out the configuration of `wheel_from_sdist_counterexample_vcs`);
+* `hPk` — *no wheel pattern picks the generated PKG-INFO* (rules out `wheel_from_sdist_counterexample_pkginfo`);
+* `hArc` — archive names are unambiguous: no file is offered under two different archive names
+  (e.g. by a package with `to` and by an explicit include);
+then the wheel selected from the unpacked sdist has exactly the members of the wheel selected from the tree, and the
+two archives are the same path ↦ content relation. -/
+theorem wheel_from_sdist_eq_of_hypotheses {T : Tree} (wf : TreeWF T) {cfg : Cfg} {ig : List String}
+    {W S W' : List Sel} {txt : String}
+    (hW : select .wheel T cfg ig = .ok W) (hS : select .sdist T cfg ig = .ok S)
+    (hsub : ∀ w ∈ W, ∃ s ∈ S, s.src = w.src)
+    (hRebuild : select .wheel (unpack T S txt) cfg [] = .ok W')
+    (hPkgs : modulePackages .wheel (unpack T S txt) cfg = modulePackages .wheel T cfg)
+    (hVcs : ∀ s ∈ S, ∀ q, q ≠ [] → q <+: s.src → posix q ∉ ig)
+    (hPk : ∀ w' ∈ W', w'.src ≠ [Gen.sdistPkgInfoName])
+    (hArc : ∀ L, offers .wheel T cfg ig = .ok L → ∀ a ∈ L, ∀ b ∈ L, a.src = b.src → a = b) :
+    (∀ t, t ∈ W' ↔ t ∈ W) ∧ ∀ x, x ∈ archive T W ↔ x ∈ archive (unpack T S txt) W' := by
+  obtain ⟨B, hB, _, hWB, _⟩ := select_mem hW
+  obtain ⟨B', hB', _, hWB', _⟩ := select_mem hRebuild
+  have e1 := hWB rfl; subst e1
+  have e2 := hWB' rfl; subst e2
+  obtain ⟨LT, hLT, rfl⟩ := findFilesToAdd_offers hB
+  obtain ⟨LU, hLU, rfl⟩ := findFilesToAdd_offers hB'
+  have hfT := hArc LT hLT
+  have core := fun t => offers_unpack wf hS hLT hLU hPkgs hVcs t
+  -- offers on the unpacked tree that can reach W' are offers on the tree
+  have hne : ∀ t ∈ LU, t.src ≠ [Gen.sdistPkgInfoName] := by
+    intro t ht
+    obtain ⟨s, hs, hsrc⟩ := src_mem_foldl_addSel (acc := []) ht
+    rw [← hsrc]; exact hPk s hs
+  have hUT : ∀ t ∈ LU, t ∈ LT := fun t ht => (core t).1 ht (hne t ht)
+  have hfU : ∀ a ∈ LU, ∀ b ∈ LU, a.src = b.src → a = b := fun a ha b hb h => hfT a (hUT a ha) b (hUT b hb) h
+  have hmem : ∀ t, t ∈ LU.foldl addSel [] ↔ t ∈ LT.foldl addSel [] := by
+    intro t
+    rw [mem_foldl_addSel_functional hfU, mem_foldl_addSel_functional hfT]
+    constructor
+    · exact hUT t
+    · intro ht
+      exact (core t).2 ht (hsub t ((mem_foldl_addSel_functional hfT t).mpr ht))
+  refine ⟨hmem, ?_⟩
+  -- contents: every member's source is a packed file of T, found alike in both trees
+  have hfind : ∀ t ∈ LT.foldl addSel [], T.find? (fun e => e.path == t.src) = (unpack T S txt).find? (fun e => e.path == t.src) := by
+    intro t ht
+    have htL := (mem_foldl_addSel_functional hfT t).mp ht
+    obtain ⟨_, _, _, _, _, _, _, hiff⟩ := mem_offers hLT
+    obtain ⟨s, hs, hsrc⟩ := hsub t ht
+    have hent := select_sdist_entries hS s hs
+    have packed : ∀ c : Entry, c ∈ T → c.isDir = false → c.path = t.src →
+        T.find? (fun e => e.path == t.src) = (unpack T S txt).find? (fun e => e.path == t.src) := by
+      intro c hc hcf hcp
+      have harc : c.path = s.arc := by rw [hent.1, hsrc, hcp]
+      have hcU : c ∈ unpack T S txt := mem_unpack_iff.mpr (.inl ⟨hc, s, hs, harc ▸ List.prefix_refl _, .inr harc⟩)
+      obtain ⟨f1, f2⟩ := find_agree wf hc hcU
+      rw [← hcp, f1, f2]
+    rcases (hiff t).mp htL with ⟨_, _, _, _, _, _, c, ⟨_, _, h1, h2, _⟩, rfl⟩ | ⟨_, _, _, _, _, _, _, c, ⟨_, _, h1, h2, _⟩, rfl⟩
+    · exact packed c h1 h2 rfl
+    · exact packed c h1 h2 rfl
+  intro x
+  unfold archive
+  simp only [List.mem_filterMap]
+  constructor
+  · rintro ⟨w, hw, hx⟩
+    exact ⟨w, (hmem w).mpr hw, by rw [← hfind w hw]; exact hx⟩
+  · rintro ⟨w, hw, hx⟩
+    have hw' := (hmem w).mp hw
+    exact ⟨w, hw', by rw [hfind w hw']; exact hx⟩
+
+
+/-- the hypotheses of `wheel_from_sdist_eq_of_hypotheses` are met by a project with an excluded module re-included
+for both formats, a licence file and a stray `.pyc` -/
+def ex2Cfg : Cfg where
+  moduleName := "p"
+  rootName := "proj"
+  distName := "p"
+  version := "1.0"
+  packages := []
+  includes := [⟨"p/gen.py", ["sdist", "wheel"]⟩]
+  excludes := ["p/gen.py"]
+  readmes := []
+  scripts := []
+  hasEntryPoints := false
+
+def ex2W : List Sel := [⟨["p", "__init__.py"], ["p", "__init__.py"], false⟩, ⟨["p", "gen.py"], ["p", "gen.py"], false⟩]
+
+def ex2S : List Sel :=
+  ex2W ++ [⟨["LICENSE"], ["LICENSE"], false⟩, ⟨["pyproject.toml"], ["pyproject.toml"], false⟩]
+
+example : TreeWF exTree ∧ select .wheel exTree ex2Cfg [] = .ok ex2W ∧ select .sdist exTree ex2Cfg [] = .ok ex2S ∧
+    (∀ w ∈ ex2W, ∃ s ∈ ex2S, s.src = w.src) ∧
+    select .wheel (unpack exTree ex2S "m") ex2Cfg [] = .ok ex2W ∧
+    modulePackages .wheel (unpack exTree ex2S "m") ex2Cfg = modulePackages .wheel exTree ex2Cfg ∧
+    (∀ w' ∈ ex2W, w'.src ≠ [Gen.sdistPkgInfoName]) ∧
+    (∀ L, offers .wheel exTree ex2Cfg [] = .ok L → ∀ a ∈ L, ∀ b ∈ L, a.src = b.src → a = b) := by
+  refine ⟨treeWF_of_check (by decide +kernel), by decide +kernel, by decide +kernel, by decide +kernel,
+    by decide +kernel, by decide +kernel, by decide +kernel, ?_⟩
+  intro L hL
+  have : offers .wheel exTree ex2Cfg [] = .ok (ex2W ++ [⟨["p", "gen.py"], ["p", "gen.py"], false⟩]) := by decide +kernel
+  rw [this] at hL
+  cases hL
+  decide +kernel
 
 end Poetry.C09
